@@ -1067,6 +1067,16 @@ fn synthetic_lines(run: &mut Run, lines: &mut Lines, rng: &mut Rng, n: usize) {
         }
         run.eval(None);
     }
+    // u32 wrap-around of a release build (Lean: osu_accuracy_wrapped_exceeds_one); outside the
+    // property's quantifier, replayed so that the witness stays tied to the code
+    if !cfg!(debug_assertions) {
+        for (n300, misses) in [(1u32, 715_827_882u32), (7, 715_827_882), (3, 10)] {
+            let s = OsuScoreState { n300, misses, ..Default::default() };
+            if let Ok(acc) = guarded(|| s.accuracy(OsuScoreOrigin::Stable)) {
+                lines.push(run, "syn-wrap", format!("ACCW {}", osu_state_str(&s)), format!("acc={}", fnum(acc)));
+            }
+        }
+    }
     // difficulty_value / count_top_weighted_strains through the hooks
     for i in 0..n {
         let len = *rng.pick(&[0usize, 0, 1, 2, 3, 5, 8, 13, 40]);
@@ -1196,7 +1206,7 @@ pub fn run(tier: &str, seed: u64, only: Option<&str>) -> Run {
             maps.push((format!("corner-{name}-{}", mode_name(mode)), spec.render(), mode));
         }
     }
-    let n_random = if thorough { 400 } else { 60 };
+    let n_random = if thorough { 1200 } else { 60 };
     for i in 0..n_random {
         let mode = (i % 4) as u8;
         let mut cfg = GenCfg::small(mode);
